@@ -57,6 +57,7 @@ type gmember struct {
 	endRequestedUs int64 // when cancel/close was asked (0 = not)
 	crashed  bool
 	loopDone chan struct{}
+	closeInFlight bool
 	errTimes []int64 // times of every error surfaced on Errors()
 	notConnectedErrs []int64 // times at which "broker not connected" surfaced on Errors()
 }
@@ -219,7 +220,7 @@ func (h *ghandler) ConsumeClaim(s sarama.ConsumerGroupSession, claim sarama.Cons
 			return nil
 		}
 		if paceUs > 0 {
-			time.Sleep(time.Duration(paceUs) * time.Microsecond)
+			gs.r.nap(time.Duration(paceUs) * time.Microsecond)
 		}
 	}
 	return nil
@@ -351,7 +352,7 @@ func scenGroup(r *run) {
 			wg.Add(1)
 			go func() {
 				defer wg.Done()
-				time.Sleep(time.Duration(op.ThinkUs) * time.Microsecond)
+				gs.r.nap(time.Duration(op.ThinkUs) * time.Microsecond)
 				gs.appEvent(m, op.Op)
 			}()
 		}
@@ -363,7 +364,7 @@ func scenGroup(r *run) {
 			endAt = c.Workload[i].ThinkUs
 		}
 	}
-	time.Sleep(time.Duration(endAt) * time.Microsecond)
+	gs.r.nap(time.Duration(endAt) * time.Microsecond)
 	for _, m := range gs.members {
 		gs.appEvent(m, "closegroup")
 	}
@@ -432,8 +433,16 @@ func (gs *groupScen) runMember(m *gmember) {
 	k := gs.r.k
 	defer close(m.loopDone)
 	if m.op.ThinkUs > 0 {
-		time.Sleep(time.Duration(m.op.ThinkUs) * time.Microsecond)
+		gs.r.nap(time.Duration(m.op.ThinkUs) * time.Microsecond)
 	}
+	m.mu.Lock()
+	if m.closing || gs.r.closing() {
+		// shut down before it ever started
+		m.closing, m.closed = true, true
+		m.mu.Unlock()
+		return
+	}
+	m.mu.Unlock()
 	m.cfg = gs.memberConfig(m)
 	if err := m.cfg.Validate(); err != nil {
 		gs.r.finish("infra", "generated config invalid: "+err.Error())
@@ -576,7 +585,13 @@ func (gs *groupScen) appEvent(m *gmember, what string) {
 			m.mu.Unlock()
 			return
 		}
+		m.mu.Lock()
+		m.closeInFlight = true
+		m.mu.Unlock()
 		err := g.Close()
+		m.mu.Lock()
+		m.closeInFlight = false
+		m.mu.Unlock()
 		k.logf("m%d Close returned: %v", m.idx, err)
 		<-m.loopDone
 		// closing twice is harmless
@@ -727,11 +742,24 @@ func (gs *groupScen) onHang(dump string) {
 		}
 		m.mu.Unlock()
 	}
-	if !stuck {
-		gs.r.violate("C12.close-hang", "group scenario did not finish; parked: %v", frames)
-		if gs.c.Property != "C12" {
-			gs.r.violate(propRule("hang"), "group scenario did not finish; parked: %v", frames)
+	closeStuck := false
+	for _, m := range gs.members {
+		m.mu.Lock()
+		if m.closeInFlight {
+			closeStuck = true
+			cls := ""
+			if m.crashed {
+				cls = "member-cut-off"
+			}
+			gs.r.violateClass("C12.close-hang", cls, "member %d: ConsumerGroup.Close did not complete within the liveness bound [%s]; parked: %v", m.idx, cls, frames)
 		}
+		m.mu.Unlock()
+	}
+	if !stuck && !closeStuck {
+		gs.r.violate("C12.close-hang", "group scenario did not finish; parked: %v", frames)
+	}
+	if !stuck && gs.c.Property != "C12" {
+		gs.r.violate(propRule("hang"), "group scenario did not finish; parked: %v", frames)
 	}
 	gs.judge()
 }
